@@ -163,6 +163,26 @@ def _rule_fromfile(ctx, rule, second):
     lk = L.length_of(_decl(), N.sym('k'))
     two_d = P.Cond.cmp('>=', ndim, 2)
     seen = set()
+    # how the file is read: np.loadtxt with its default layout.  ndmin>=1 turns a one-number file into a length-1 array,
+    # which passes the equal-length test of exportToMatrixArray and is then broadcast over the whole grid by numpy
+    # (with the default a one-number file is a 0-d array and is refused while the PRISM object is built)
+    for d, ip, r in worlds[:1]:
+        for k_, x in ip.notes:
+            if k_ != 'loadtxt':
+                continue
+            kw = dict(x.get('kwargs') or {})
+            if x.get('npos', 1) > 1:
+                ctx.undecided(rule, FF + '.calculate', 'np.loadtxt is called with positional options', m.loc())
+            nd = kw.pop('ndmin', 0)
+            for harmless in ('dtype', 'comments', 'delimiter', 'encoding'):
+                kw.pop(harmless, None)
+            if nd not in (0, None):
+                ctx.violation(rule, FF + '.calculate', 'loadtxt-ndmin' + ksfx,
+                              'np.loadtxt(..., ndmin=%s): a one-column file holding a single number becomes a length-1 array; '
+                              'PairTable.exportToMatrixArray only compares the table entries with each other, so it is accepted '
+                              'and numpy broadcasts it over the whole Fourier grid instead of rejecting the wrong length' % nd, m.loc())
+            elif kw:
+                ctx.undecided(rule, FF + '.calculate', 'np.loadtxt is called with layout-changing options %s' % sorted(kw), m.loc())
     for d, ip, r in worlds:
         facts = path_facts(ip, r['g0'], r['d0'])
         layout = r['all_facts']       # the file layout is a fact about the file, whichever call discovered it
